@@ -1404,6 +1404,33 @@ struct Explorer {
     return false;
   }
 
+  /// C08 under faults: whatever goes wrong at one file operation of an invocation (the process dies there, or the
+  /// operation fails: disk full, file size limit), the records of the outputs that are still in the manifest or on disk
+  /// are still in the log afterwards, old or new -- a failed flush must not be followed by renaming the cut-off copy over
+  /// the intact log.
+  void CheckLogSurvivesFault(const Op& op, const vfs::Disk& before, const vfs::Disk& after, const string& what, vector<Violation>* out) {
+    const vfs::File* fb = before.Get(kLog);
+    if (!fb) return;
+    if (!(fb->data.compare(0, 15, "# ninja log v7\n") == 0)) return;
+    lp::BuildLogModel b0 = lp::ParseBuildLog(fb->data), b1;
+    if (const vfs::File* fa = after.Get(kLog)) b1 = lp::ParseBuildLog(fa->data);
+    const Variant* v = VariantOf(sc, after);
+    for (auto& kv : b0.entries) {
+      const string& path = kv.first;
+      bool in_manifest = v && v->producer.count(path) && !v->stmts[v->producer.at(path)].phony;
+      bool on_disk = after.Get(path) != nullptr;
+      if (!in_manifest && !on_disk) continue;
+      if (b1.entries.count(path)) continue;
+      Violation x; x.prop = "C08"; x.clause = "fault-loses-records";
+      x.detail = "'" + op.label + "', " + what + ": the record of '" + path + "' (" + (in_manifest ? "in the manifest" : "on disk") +
+                 ") is gone from the build log (" + to_string(b1.entries.size()) + " of " + to_string(b0.entries.size()) + " records left)";
+      x.facts.set("output", path);
+      x.facts.set("tool", op.tool ? op.tool_kind : string("build"));
+      out->push_back(x);
+      return;
+    }
+  }
+
   /// C08 at process level: what ninja (any invocation) does to an existing build log.
   ///  * a log of an unsupported version is discarded with a warning, never an error;
   ///  * `-t restat [outputs]` changes only recorded mtimes (to the files' current ones, 0 when missing);
@@ -2731,7 +2758,7 @@ struct Explorer {
         s.set("exit", r.exit_code);
         samples.push_back(s);
       }
-      if (op.crash && Want("C07") && !r.hang && !r.horizon) {
+      if (op.crash && (Want("C07") || Want("C08")) && !r.hang && !r.horizon) {
         // every crash point of this schedule; for write operations with and without a torn part
         for (uint64_t k = 0; k < r.ops; ++k) {
           for (int tear : {-1, 7}) {
@@ -2751,6 +2778,13 @@ struct Explorer {
               RunResult rm = rc;
               for (size_t oi = 0; oi < orphans.size(); ++oi)
                 if (mask & (1u << oi)) CompleteOrphan(&dm, &rm, cc, orphans[oi]);
+              if (Want("C08") && mask == 0) {
+                vector<Violation> cv;
+                CheckLogSurvivesFault(op, w.disk, dm, "ninja dies at mutating operation " + to_string(k) + (tear >= 0 ? " (write lands partly)" : ""), &cv);
+                vector<Step> ch = w.hist;
+                ch.push_back({opi, r.choices, (int64_t)k, tear, 0});
+                for (auto& x : cv) Report(x, ch);
+              }
               string ckey = WorldKey(dm);
               st.crash_worlds++;
               if (!succ_keys.insert(ckey).second) continue;
@@ -2780,8 +2814,11 @@ struct Explorer {
               x.detail = "an I/O error at mutating operation " + to_string(k) + " makes ninja hang or report 'stuck'";
               fv.push_back(x);
             }
+            if (Want("C08") && !rf.hang && !rf.horizon)
+              CheckLogSurvivesFault(op, w.disk, df, "mutating operation " + to_string(k) + " fails with an I/O error (exit " + to_string(rf.exit_code) + ")", &fv);
             vector<Step> fh = w.hist;
             fh.push_back({opi, r.choices});
+            fh.back().io_fail_at = (int64_t)k;
             for (auto& x : fv) Report(x, fh);
             string fkey = WorldKey(df);
             if (succ_keys.insert(fkey).second && !rf.hang && !rf.horizon) {
